@@ -8,10 +8,14 @@ Line-protocol driver for C10 (see harness/cmd/vh/c10.go for the grammar).
       O <hasLongDate> [<n> sections] <hasLongTime> [<n> sections]      Options patterns, tokenised by nfp
     -> <ok hex | PANIC | UNMODELLED> C=<conf> X=<exact fixed rendering | -> T=<fields = C19 civilOf of the instant> A=<AM/PM patterns in the regenerated table>
   comma <text>      -> printCommaSep
+  bcode <culture> <short> <longtime> <id>   -> getBuiltInNumFmtCode (hook): ok <code> | none
+  glue <styled> <id> <culture> <short> <longtime> <code|none> fmt …  GetCellValue through NewStyle{NumFmt:id}:
+        the fmt fields for the code the harness expects + R=<formattedValue's resolution in the model equals it>
 All strings hex ("-" = empty).
 -/
 import XlModel.NumFmtFloat
 import XlModel.NumFmtDate
+import XlModel.NumFmtGlue
 import XlModel.Drv.Util
 namespace XlModel.Drv.C10
 open XlModel XlModel.NumFmt XlModel.Drv
@@ -178,6 +182,19 @@ def step (w : List String) : String :=
     match fmtOp rest with
     | some (s, []) => s
     | _ => "bad-op"
+  | ["bcode", cu, sh, lt, id] =>
+    match cu.toNat?, unhexS sh, unhexS lt, id.toNat? with
+    | some cu, some sh, some lt, some id =>
+      match Glue.builtInCode { culture := cu, short := sh, longTime := lt } id with
+      | some c => "ok " ++ hexS c
+      | none => "none"
+    | _, _, _, _ => "bad-op"
+  | "glue" :: styled :: id :: cu :: sh :: lt :: code :: "fmt" :: rest =>
+    match id.toNat?, cu.toNat?, unhexS sh, unhexS lt, (if code = "none" then some none else (unhexS code).map some), fmtOp rest with
+    | some id, some cu, some sh, some lt, some code, some (r, []) =>
+      let got := Glue.resolve [] (if styled = "1" then 1 else 0) id { culture := cu, short := sh, longTime := lt }
+      r ++ " R=" ++ b01 (decide (got = code))
+    | _, _, _, _, _, _ => "bad-op"
   | ["comma", h] =>
     match unhexS h with
     | some s => "ok " ++ hexS (printCommaSep s)
